@@ -15,7 +15,8 @@ RULE = (
     "complete enumeration of (nbits, nchans, N, file split, contiguity-check flag, gulp, start, nsamps|None, "
     "skipback) inside the bounds; a case is non-trivial when the plan has >= 2 blocks, a partial last block, a "
     "block straddling a file boundary, hits the lastread<skipback regime, or must be / is rejected; cases are "
-    "distinct lattice points"
+    "distinct lattice points. A scale lane repeats the check on one stream of ordinary size (70 001 samples x 32 channels in 5 member files; "
+    "gulps {16384, 4099, 65536, N, 100000} x 4 ranges x skipbacks {0, 1, 1000, gulp/2})"
 )
 ASSUMPTIONS = [
     "sample values are provenance labels (unique at 16/32 bit, hashed at <= 8 bit): read_plan never branches on values",
@@ -49,7 +50,19 @@ def shards(tier: str, seed: int) -> list:
                 # the same stream opened without the contiguity check (one split per N)
                 if N >= 2:
                     out.append({"nbits": nbits, "nchans": nchans, "N": N, "lengths": [1, N - 1], "contig": False})
+    # scale lane: a stream of ordinary size (more than 2**16 samples, 32 channels, 5 member files, two of them one sample long)
+    for nbits in ((8, 32, 2) if tier == "quick" else (8, 32, 4, 2, 1, 16)):
+        out.append({"nbits": nbits, "nchans": 32, "N": 70001, "lengths": [16384, 1, 30000, 23615, 1], "contig": True, "scale": True})
     return out
+
+
+def scale_cases(N: int):
+    for g in (16384, 4099, 65536, N, 100000):
+        for start, ns in ((0, None), (12345, 50000), (65530, None), (16384, 30001)):
+            n_eff = (N - start) if ns is None else ns
+            for s in sorted({0, 1, 1000, min(g, n_eff) // 2}):
+                if s < min(g, n_eff):
+                    yield [g, start, ns, s]
 
 
 def inner_cases(N: int):
@@ -86,7 +99,7 @@ def run_shard(shard: dict, ctx, res, only=None) -> None:
             f"header.nsamples={fil.header.nsamples} expected {N}",
         )
         return
-    cases = [only] if (only is not None and len(only) == 4) else [] if only is not None else inner_cases(N)
+    cases = [only] if (only is not None and len(only) == 4) else [] if only is not None else scale_cases(N) if shard.get("scale") else inner_cases(N)
     for inner in cases:
         if inner is None:
             continue
@@ -217,7 +230,7 @@ def _one(fil, X, C, N, fbounds, shard, g, start, ns, s, res) -> None:
                 return res.violation(
                     {"site": "FilReader.read_plan", "symptom": "leading skipback samples do not repeat previous tail"},
                     case,
-                    f"block {k}: head={blk[:s].tolist()} prev tail={prev[prev.shape[0]-s:].tolist()}",
+                    f"block {k}: head={blk[:s][:8].tolist()} prev tail={prev[prev.shape[0]-s:][:8].tolist()}",
                 )
             pieces.append(blk[s:])
             lo = pos - s
@@ -236,7 +249,8 @@ def _one(fil, X, C, N, fbounds, shard, g, start, ns, s, res) -> None:
         return res.violation(
             {"site": "FilReader.read_plan", "symptom": sym},
             case,
-            f"want {want.shape[0]} samples {want[:, 0].tolist()} (ch0), got {got.shape[0]} samples {got[:, 0].tolist()} (ch0)",
+            f"want {want.shape[0]} samples {want[:64, 0].tolist()} (ch0), got {got.shape[0]} samples {got[:64, 0].tolist()} (ch0)"
+            + (f"; first difference at sample {int(np.flatnonzero((got[: min(len(got), len(want))] != want[: min(len(got), len(want))]).any(1))[0]) if (got[: min(len(got), len(want))] != want[: min(len(got), len(want))]).any() else min(len(got), len(want))}"),
         )
     if blocks and blocks[0][2].dtype != X.dtype:
         return res.violation(
